@@ -19,6 +19,8 @@ import (
 // mutations relative to a reference sequence from pairwise alignments in sam format. Genome annotations are derived from a annotation file
 // in genbank or gff version 3 format
 func Variants(samIn, refIn io.Reader, refFromFile bool, annoIn io.Reader, annoSuffix string, out io.Writer, start, end int, aggregate bool, threshold float64, appendSNP bool, threads int) error {
+	vhook.Begin("sam.Variants", threads)
+	defer vhook.End("sam.Variants")
 
 	var ref fastaio.EncodedFastaRecord
 	if refFromFile {
